@@ -199,8 +199,11 @@ func concAddAll(f *sfnt.Font, level int) {
 			GlyphClass: classdef.Table{
 				g('B'): gdef.GlyphClassBase, g('K'): gdef.GlyphClassLigature, g('L'): gdef.GlyphClassLigature,
 				g('M'): gdef.GlyphClassMark, g('N'): gdef.GlyphClassMark,
+				// glyphs listed EXPLICITLY as class 0 (only tables built in memory have such
+				// entries; the reader never produces them): C here, D in MarkAttachClass
+				g('C'): 0,
 			},
-			MarkAttachClass: classdef.Table{g('M'): 1, g('N'): 2},
+			MarkAttachClass: classdef.Table{g('M'): 1, g('N'): 2, g('D'): 0},
 			MarkGlyphSets:   []coverage.Set{{g('M'): true}, {g('M'): true, g('N'): true}},
 		}
 		gs[1].Meta.LookupFlags |= gtab.UseMarkFilteringSet
@@ -223,8 +226,8 @@ func concAddAll(f *sfnt.Font, level int) {
 				}}},
 				&gtab.LookupTable{Meta: &gtab.LookupMetaInfo{LookupType: 2}, Subtables: []gtab.Subtable{&gtab.Gpos2_2{
 					Cov:    coverage.Set{g('A'): true, g('B'): true, g('C'): true},
-					Class1: classdef.Table{g('A'): 1, g('B'): 1},
-					Class2: classdef.Table{g('V'): 1, g('W'): 2},
+					Class1: classdef.Table{g('A'): 1, g('B'): 1, g('C'): 0},
+					Class2: classdef.Table{g('V'): 1, g('W'): 2, g('X'): 0, g('Y'): 0},
 					Adjust: [][]*gtab.PairAdjust{
 						{{}, {}, {First: vr(0, 0, -5)}},
 						{{}, {First: vr(0, 0, -40)}, {First: vr(0, 0, -30), Second: vr(2, 0, 0)}},
@@ -237,6 +240,27 @@ func concAddAll(f *sfnt.Font, level int) {
 					BaseArray: [][]anchor.Table{{{}, {X: 300, Y: 700}}, {{X: 310, Y: 710}, {}}},
 				}}})
 			gs = append(gs,
+				// class-based contexts whose class tables list glyphs explicitly as class 0
+				&gtab.LookupTable{Meta: &gtab.LookupMetaInfo{LookupType: 5}, Subtables: []gtab.Subtable{&gtab.SeqContext2{
+					Cov:   coverage.Table{g('J'): 0, g('P'): 1, g('R'): 2},
+					Input: classdef.Table{g('J'): 1, g('P'): 2, g('R'): 0, g('S'): 0},
+					Rules: [][]*gtab.ClassSeqRule{
+						{{Input: []uint16{0}, Actions: []gtab.SeqLookup{{SequenceIndex: 0, LookupListIndex: 9}}}},
+						{{Input: []uint16{1, 2}, Actions: []gtab.SeqLookup{{SequenceIndex: 1, LookupListIndex: 0}}}},
+						{{Input: []uint16{2}, Actions: nil}},
+					},
+				}}},
+				&gtab.LookupTable{Meta: &gtab.LookupMetaInfo{LookupType: 6}, Subtables: []gtab.Subtable{&gtab.ChainedSeqContext2{
+					Cov:       coverage.Table{g('J'): 0, g('P'): 1},
+					Backtrack: classdef.Table{g('A'): 1, g('B'): 0},
+					Input:     classdef.Table{g('J'): 1, g('P'): 2, g('Q'): 0},
+					Lookahead: classdef.Table{g('Z'): 1, g('Y'): 0},
+					Rules: [][]*gtab.ChainedClassSeqRule{
+						nil,
+						{{Backtrack: []uint16{1}, Input: []uint16{2}, Lookahead: []uint16{1}, Actions: []gtab.SeqLookup{{SequenceIndex: 0, LookupListIndex: 0}}}},
+						{{Input: []uint16{1}, Actions: []gtab.SeqLookup{{SequenceIndex: 1, LookupListIndex: 9}}}},
+					},
+				}}},
 				&gtab.LookupTable{Meta: &gtab.LookupMetaInfo{LookupType: 2}, Subtables: []gtab.Subtable{&gtab.Gsub2_1{
 					Cov:  coverage.Table{g('R'): 0, g('S'): 1, g('U'): 2},
 					Repl: [][]glyph.ID{{g('X'), g('Y')}, {g('Z')}, {g('U'), g('U'), g('U')}},
@@ -1063,7 +1087,7 @@ func (r *concRng) intn(n int) int { return int(r.next() % uint64(n)) }
 // concTriggers are texts that make particular lookups of the synthetic tables fire: ligatures,
 // unsorted alternates, (chained) contexts of all formats, reverse chaining, mark attachment, and
 // the recursion that exhausts the budget of 64 nested actions.
-var concTriggers = []string{"AVA", "VAVTOAW", "DEF", "AVBW", "RSU", "WXYZX", "JJPPP", "AMBN", "QQQQQQQQ", "QQQQQQQQQQQQQQQQQ", "FI", "FL", "AAA", "AAB", "AE", "BCDEF", "ABCDEF", "ABCL",
+var concTriggers = []string{"JRS", "PJP", "APPZ", "RRS", "CD", "AVA", "VAVTOAW", "DEF", "AVBW", "RSU", "WXYZX", "JJPPP", "AMBN", "QQQQQQQQ", "QQQQQQQQQQQQQQQQQ", "FI", "FL", "AAA", "AAB", "AE", "BCDEF", "ABCDEF", "ABCL",
 	"AV", "OO", "TE", "AVWA", "KM", "LN", "KMN", "NM", "AGIJ", "BHIK", "ABC", "BM", "AMAMA", "DEFAGHI"}
 
 // concStale: sequences for one reused layouter — a long text first, then shorter and equally long
